@@ -430,7 +430,8 @@ pub fn scenarios(prop: &str, tier: &str) -> Vec<Arc<dyn Scenario>> {
             ];
             a.rotate = true;
             a.flush = true;
-            a.major = vec![1, u64::MAX];
+            // table targets: one key per table / two-three keys per table (multi-key tables in a multi-table run) / one table
+            a.major = vec![1, 200, u64::MAX];
             a.leveled = vec![0];
             a.wms = vec![Wm::Zero, Wm::Tight];
             a.snap = true;
